@@ -294,7 +294,7 @@ def run_playback(hk, modfile, test_src, test_name, rlog, harness=""):
 
 
 # ----------------------------------------------------------------------------- main check
-def check(prop, tier, only=None, keep=False, jobs=None):
+def check(prop, tier, only=None, keep=False, jobs=None, calibrate=False):
     t0 = time.time()
     seed = int(os.environ.get("VERIF_SEED", "0") or 0)
     cfg = meta.PROPS[prop]
@@ -304,12 +304,22 @@ def check(prop, tier, only=None, keep=False, jobs=None):
         os.remove(evpath)
     known = load_known()
     filters = [("%s_q_" % prop.lower())]
+    okfile = os.path.join(VERIF, "harness", "thorough_ok", prop + ".txt")
     if tier == "thorough":
-        filters.append("%s_t_" % prop.lower())
+        if calibrate:
+            # calibration: run every thorough-only harness; those that are conclusive on the
+            # unchanged tree are written to harness/thorough_ok/<id>.txt (committed)
+            filters = ["%s_t_" % prop.lower()]
+        elif os.path.isfile(okfile):
+            # registered thorough tier = quick harnesses + the thorough-only harnesses that were
+            # conclusive on the unchanged tree within the caps (calibrated allowlist)
+            filters += [l.strip() for l in open(okfile) if l.strip() and not l.startswith("#")]
     if only:
         filters = only.split(",")
     jobs = jobs or int(os.environ.get("VERIF_JOBS", "14" if tier == "quick" else "8"))
-    h_timeout = cfg.get("timeout_" + tier, 420 if tier == "quick" else 2400)
+    h_timeout = cfg.get("timeout_" + tier, 420 if tier == "quick" else 1500)
+    if calibrate:
+        h_timeout = 700  # registered thorough harnesses get >= 2x headroom
     # per-cbmc resident-set cap: jobs * cap stays below the 62 GB of the sandbox
     mem = max(3.0, 52.0 / jobs)
 
@@ -413,6 +423,12 @@ def check(prop, tier, only=None, keep=False, jobs=None):
     n_ok = sum(1 for r in all_res.values() if r["status"] == "Success")
     log("%s %s: %d harnesses, %d verified, %d known-finding checks, %d violations, %d inconclusive, %.0fs (log %s)"
         % (prop, tier, len(all_res), n_ok, len(knowns), len(violations), len(inconclusive), wall, logf))
+    if calibrate:
+        good = sorted(h for h, r in all_res.items() if r["status"] == "Success" and not r["undetermined"] and not r["covers_unsat"]
+                      and not any(i["harness"] == h for i in inconclusive))
+        os.makedirs(os.path.dirname(okfile), exist_ok=True)
+        open(okfile, "w").write("# thorough-only harnesses of %s that were conclusive on the unchanged tree (bin/check %s --tier thorough --calibrate)\n" % (prop, prop) + "\n".join(good) + "\n")
+        log("calibration: %d of %d thorough-only harnesses conclusive -> %s" % (len(good), len(all_res), okfile))
     if violations:
         return 1
     if inconclusive or not all_res:
@@ -522,13 +538,14 @@ def main():
     ap.add_argument("--replay")
     ap.add_argument("--keep", action="store_true")
     ap.add_argument("-j", type=int)
+    ap.add_argument("--calibrate", action="store_true", help="thorough tier: run all thorough-only harnesses and record the conclusive ones")
     a = ap.parse_args()
     if a.prop not in meta.PROPS:
         log("unknown or not-applicable property " + a.prop)
         return 2
     if a.replay:
         return do_replay(a.prop, a.replay)
-    return check(a.prop, a.tier, a.only, a.keep, a.j)
+    return check(a.prop, a.tier, a.only, a.keep, a.j, a.calibrate)
 
 
 if __name__ == "__main__":
